@@ -143,7 +143,19 @@ fn order_matters(h: &[Ev]) -> bool {
     false
 }
 
+/// true if the history has two or more slices (or two or more added layers) and a user-data record
+fn names_matter(h: &[Ev]) -> bool {
+    let ns = h.iter().filter(|e| matches!(e, Ev::Slice)).count();
+    let nl = h.iter().filter(|e| matches!(e, Ev::Layer)).count();
+    (ns >= 2 || nl >= 2) && h.iter().any(|e| matches!(e, Ev::Ud(_)))
+}
+
 pub fn build_ord(h: &[Ev], order: u8) -> File {
+    build_named(h, order, false)
+}
+
+/// `same_names`: every slice is called "s" and every layer added by the history "l" (names need not be unique)
+pub fn build_named(h: &[Ev], order: u8, same_names: bool) -> File {
     let fmt = Fmt::Rgba;
     let mut f = gen::file(2, 2, &fmt, &[10]);
     for i in 0..PRELUDE_LAYERS {
@@ -160,7 +172,7 @@ pub fn build_ord(h: &[Ev], order: u8) -> File {
         let fr = f.frames.last_mut().unwrap();
         match e {
             Ev::Layer => {
-                fr.push(Body::Layer(Layer::image(&format!("l{}", nl))));
+                fr.push(Body::Layer(Layer::image(&if same_names { "l".to_string() } else { format!("l{}", nl) })));
                 nl += 1;
             }
             Ev::Cel => {
@@ -177,7 +189,7 @@ pub fn build_ord(h: &[Ev], order: u8) -> File {
                 next_cel += 1;
             }
             Ev::Slice => {
-                fr.push(slice(&format!("s{}", nsl), 0, vec![key(0, 0, 0, 1, 1)]));
+                fr.push(slice(&if same_names { "s".to_string() } else { format!("s{}", nsl) }, 0, vec![key(0, 0, 0, 1, 1)]));
                 nsl += 1;
             }
             Ev::Tags => {
@@ -226,6 +238,14 @@ fn explore(ctx: &Ctx, fam: &str, alphabet: &[Ev], depth: usize, prefix: Vec<Ev>,
         conform(ctx, fam, &case, &f, want);
         count.fetch_add(1, std::sync::atomic::Ordering::Relaxed);
         // the same history with the cels of a frame stored in descending / pairwise swapped layer order
+        // the same history with all slices (and all added layers) sharing one name
+        if names_matter(&prefix) {
+            let case3 = || format!("{:?} same-names", prefix);
+            if ctx.wants(fam, &case3) {
+                conform(ctx, fam, &case3, &build_named(&prefix, 0, true), want);
+                count.fetch_add(1, std::sync::atomic::Ordering::Relaxed);
+            }
+        }
         if order_matters(&prefix) {
             for order in [1u8, 2] {
                 let case2 = || format!("{:?} cel-order={}", prefix, order);
@@ -304,7 +324,7 @@ pub fn run(ctx: &Ctx) -> i32 {
         }
         seeds.par_iter().for_each(|(p, s)| explore(ctx, fam, &alphabet, depth, p.clone(), s.clone(), &want, &count, &trans));
         let n = count.load(std::sync::atomic::Ordering::Relaxed);
-        ctx.family(fam, n, &format!("every enabled event history of length <= {} over {} symbols (layer, cel, slice, tags(2), legacy04, legacy11, palette, ignorable, next-frame, user data{}), after a prelude of {} record-free layers; histories with two or more cels in a frame are also encoded with those cels on descending and on pairwise swapped layers; histories are not merged; {} model transitions", depth, alphabet.len(), if alphabet.len() == 13 { " x 4 payload shapes" } else { " with rotating payload shape" }, PRELUDE_LAYERS, trans.load(std::sync::atomic::Ordering::Relaxed)), true);
+        ctx.family(fam, n, &format!("every enabled event history of length <= {} over {} symbols (layer, cel, slice, tags(2), legacy04, legacy11, palette, ignorable, next-frame, user data{}), after a prelude of {} record-free layers; histories with two or more cels in a frame are also encoded with those cels on descending and on pairwise swapped layers, histories with a record and two or more slices (or added layers) also with all slices named alike and all added layers named alike; histories are not merged; {} model transitions", depth, alphabet.len(), if alphabet.len() == 13 { " x 4 payload shapes" } else { " with rotating payload shape" }, PRELUDE_LAYERS, trans.load(std::sync::atomic::Ordering::Relaxed)), true);
         ctx.set_extra(&format!("model_transitions_{}", fam), json!(trans.load(std::sync::atomic::Ordering::Relaxed)));
     }
     if ctx.wants_family("payloads") {
